@@ -255,6 +255,7 @@ type VC struct {
 	bigConsts   map[string]int64
 	needDecVal  bool
 	globalInits []globalInit
+	needDigits  bool
 	needBytes   bool
 	frameOn     bool
 	topEntry    Term
